@@ -24,13 +24,17 @@ NOTE = ["the model is a pure function of the inputs by construction; what is che
         "explored histories are sampled permutations, not all interleavings"]
 
 
-def run_worker(ops, hashseed, cwd, d, tag):
+def run_worker(ops, hashseed, cwd, d, tag, rounds=1):
     specp = os.path.join(d, f"spec_{tag}.json")
-    json.dump({"repo": str(common.REPO), "ops": ops}, open(specp, "w"))
+    json.dump({"repo": str(common.REPO), "ops": ops, "rounds": rounds}, open(specp, "w"))
     env = dict(os.environ)
     env["PYTHONHASHSEED"] = str(hashseed)
     env.pop("PYTHONPATH", None)
-    p = subprocess.run([common.PY, str(common.VERIF / "harness" / "c18_worker.py"), specp], cwd=cwd, env=env, stdout=subprocess.PIPE, stderr=subprocess.PIPE, text=True)
+    try:
+        p = subprocess.run([common.PY, str(common.VERIF / "harness" / "c18_worker.py"), specp], cwd=cwd, env=env, stdout=subprocess.PIPE, stderr=subprocess.PIPE, text=True,
+                           timeout=1200)
+    except subprocess.TimeoutExpired:
+        return {"__timeout__": True}
     for line in p.stdout.splitlines():
         if line.startswith("C18RESULT "):
             return json.loads(line[len("C18RESULT "):])
@@ -46,6 +50,18 @@ def absolutise(desc, root):
     if isinstance(desc, str) and (desc.endswith(".bin") or desc.endswith(".suit") or desc.endswith(".txt")) and "/" not in desc:
         return os.path.join(root, desc)
     return desc
+
+
+MODEL_FAILURES: list = []
+
+
+def ref(m, what):
+    """the model's output as the reference; where the model has no answer (a class the translator could not classify on this tree) the answer of a fresh
+    interpreter is the reference and the lost correspondence is reported"""
+    if "ok" in m:
+        return m["ok"]
+    MODEL_FAILURES.append({"op": "suit.create", "request": what, "impl": "(reference: fresh interpreter)", "model": m})
+    return ("fresh",)
 
 
 def build_ops(seed, tier, d, drv):
@@ -77,6 +93,19 @@ def build_ops(seed, tier, d, drv):
         afiles = {os.path.join(files_dir, a): b for a, b in files.items()}
         m = suitio.model_create(drv, adesc, afiles)
         if "ok" not in m:
+            if not str(m.get("err", "")).startswith("model-") or i > 40 * n:
+                if i > 40 * n:
+                    break
+                continue
+            MODEL_FAILURES.append({"op": "suit.create", "request": f"create{k}", "impl": "(reference: fresh interpreter)", "model": m})
+            oid = f"create{k}"
+            ops.append({"id": oid, "kind": "create", "desc": adesc})
+            expect[oid] = ("fresh",)
+            ic = suitio.impl_create(adesc)
+            if "ok" in ic:
+                ops.append({"id": f"parse{k}", "kind": "parse", "bytes": ic["ok"]})
+                expect[f"parse{k}"] = ("fresh",)
+            k += 1
             continue
         oid = f"create{k}"
         ops.append({"id": oid, "kind": "create", "desc": adesc, "twice": k % 3 == 0})
@@ -112,6 +141,9 @@ def build_ops(seed, tier, d, drv):
         if "ok" in pm:
             ops.append({"id": f"parse{k}", "kind": "parse", "bytes": m["ok"]})
             expect[f"parse{k}"] = json.dumps(suitio.dec_obj(pm["ok"]), sort_keys=False)
+        elif str(pm.get("err", "")).startswith("model-"):
+            ops.append({"id": f"parse{k}", "kind": "parse", "bytes": m["ok"]})
+            expect[f"parse{k}"] = ref(pm, f"parse{k}")
         k += 1
     # two descriptions that differ only in the directory of the referenced files (same names, different contents)
     for tag, salt in (("A", 1), ("B", 2), ("C", 3)):
@@ -134,7 +166,7 @@ def build_ops(seed, tier, d, drv):
         ff = {os.path.join(dd, n): open(os.path.join(dd, n), "rb").read() for n in ("fw.bin", "digest.bin", "size.txt")}
         m = suitio.model_create(drv, fdesc, ff)
         ops.append({"id": "fixed" + tag, "kind": "create", "desc": fdesc})
-        expect["fixed" + tag] = m["ok"]
+        expect["fixed" + tag] = ref(m, "fixed" + tag)
     # the same *relative* spelling of the file names in three working directories, and one absolute path whose content is rewritten
     # before each operation (a result remembered under the spelling of a path would be stale)
     def small_desc(fw, dg, sz):
@@ -154,7 +186,7 @@ def build_ops(seed, tier, d, drv):
         ff = {n: open(os.path.join(dd, n), "rb").read() for n in ("fw.bin", "digest.bin", "size.txt")}
         m = suitio.model_create(drv, rdesc, ff)
         ops.append({"id": "rel" + tag, "kind": "create", "desc": rdesc, "cwd": dd})
-        expect["rel" + tag] = m["ok"]
+        expect["rel" + tag] = ref(m, "rel" + tag)
     rw = "@RW@"
     for tag, salt in (("1", 11), ("2", 12), ("3", 13)):
         blob = bytes((x * 13 + salt) % 256 for x in range(200 + salt))
@@ -163,7 +195,7 @@ def build_ops(seed, tier, d, drv):
         wdesc = small_desc(paths["fw.bin"], paths["digest.bin"], paths["size.txt"])
         m = suitio.model_create(drv, wdesc, content)
         ops.append({"id": "rewrite" + tag, "kind": "create", "desc": wdesc, "pre_write": {a: b.hex() for a, b in content.items()}})
-        expect["rewrite" + tag] = m["ok"]
+        expect["rewrite" + tag] = ref(m, "rewrite" + tag)
     # cache generation from an envelope with several integrated dependencies (the order of the slots is the order in the envelope)
     for j in range(2 if tier == "quick" else 8):
         ndeps = 3 + j % 3
@@ -215,6 +247,30 @@ def build_ops(seed, tier, d, drv):
             if "ok" in m:
                 ops.append({"id": f"boot{j}", "kind": "boot", "files": [b.hex()], "base": 0x0E1ED000, "soc": soc})
                 expect[f"boot{j}"] = ("images", m["ok"])
+    # operations on unusual or unusable inputs (refused, or accepted through a rarely taken path): whatever their own outcome - the outcome in a
+    # fresh interpreter is the reference - they must leave nothing behind for the operations that follow them in a history
+    plain = {"SUIT_Envelope_Tagged": {"suit-authentication-wrapper": {"SuitDigest": {"suit-digest-algorithm-id": "cose-alg-sha-256"}},
+                                      "suit-manifest": {"suit-manifest-version": 1, "suit-manifest-sequence-number": 3,
+                                                        "suit-install": [{"suit-condition-image-match": []}], "suit-text": {"suit-digest-algorithm-id": "cose-alg-sha-256"}},
+                                      "suit-text": {"en": {"suit-text-manifest-description": "d\u00e9scription"}}}}
+    odd = os.path.join(d, "odd_inputs")
+    os.makedirs(odd)
+    texts = {"bom.json": b"\xef\xbb\xbf" + json.dumps(plain).encode(), "bom.yaml": b"\xef\xbb\xbf" + yaml.dump(plain, sort_keys=False).encode(),
+             "crlf.json": json.dumps(plain, indent=2).replace("\n", "\r\n").encode(), "utf16.json": json.dumps(plain).encode("utf-16"),
+             "latin1.yaml": yaml.dump(plain, sort_keys=False, allow_unicode=True).encode("latin-1"), "empty.json": b"", "list.yaml": b"- 1\n- 2\n",
+             "missing_file.json": json.dumps({"SUIT_Envelope_Tagged": {**plain["SUIT_Envelope_Tagged"], "suit-integrated-payloads": {"#x": os.path.join(odd, "absent.bin")}}}).encode()}
+    for name, data in texts.items():
+        with open(os.path.join(odd, name), "wb") as fh:
+            fh.write(data)
+        ops.append({"id": "odd_" + name, "kind": "create_file", "path": os.path.join(odd, name)})
+        expect["odd_" + name] = ("fresh",)
+    good = suitio.impl_create(plain)
+    if "ok" in good:
+        for tagname, hx in (("truncated", good["ok"][: len(good["ok"]) // 2 * 1]), ("trailing", good["ok"] + "00"), ("empty", ""), ("not_cbor", "ff" * 8)):
+            ops.append({"id": "oddparse_" + tagname, "kind": "parse", "bytes": hx})
+            expect["oddparse_" + tagname] = ("fresh",)
+            ops.append({"id": "oddparsefile_" + tagname, "kind": "parse_file", "bytes": hx, "fmt": "json", "hierarchy": False})
+            expect["oddparsefile_" + tagname] = ("fresh",)
     return ops, expect, files_dir
 
 
@@ -350,19 +406,29 @@ def run(tier: str, seed: int) -> int:
         for i, op in enumerate(o for o in ops if o["kind"] in ("create", "create_file")):
             if i % 3 == 0 or tier == "thorough":
                 histories.append(("crowded-cwd", seeds[i % 4], [op], crowded))
+        # (c) a long-lived interpreter: the whole list several times over (well past a hundred parse / create / image operations)
+        histories.append(("soak", "2", list(ops), other_cwd))
+        histories.append(("soak-readers", "1", [o for o in ops if o["kind"] in ("parse", "parse_file", "cache_env", "boot")], files_dir))
         from concurrent.futures import ThreadPoolExecutor
         def go(h):
             kind, hs, hops, cwd = h[1]
-            return run_worker(hops, hs, cwd, d, str(h[0]))
+            return run_worker(hops, hs, cwd, d, str(h[0]), rounds={"soak": 4 if tier == "quick" else 12, "soak-readers": 40 if tier == "quick" else 200}.get(kind, 1))
         with ThreadPoolExecutor(max_workers=12) as ex:
             results = list(ex.map(go, list(enumerate(histories))))
         # operations without a model: the result in a fresh interpreter is the reference
         for (kind, hs, hops, cwd), out in zip(histories, results):
             if kind == "fresh" and expect[hops[0]["id"]] == ("fresh",):
                 expect[hops[0]["id"]] = out.get(hops[0]["id"])
+        res.mismatches += MODEL_FAILURES[:3]
         for (kind, hs, hops, cwd), out in zip(histories, results):
             res.count("history:" + kind)
             res.count("hashseed:" + hs)
+            if out.get("__timeout__"):
+                res.spec_failures.append({"history": kind, "hashseed": hs, "operations": len(hops), "what": "a history of operations in one interpreter did not finish within 20 minutes"})
+                continue
+            for dr in out.get("__drift__", []):
+                res.spec_failures.append({"history": kind, **dr, "what": f"the same operation gives another result in round {dr['round'] + 1} of the same list in one interpreter "
+                                                                        "than in round 1 (state carried from call to call)"})
             for op in hops:
                 res.evaluations += 1
                 res.nontrivial.add(op["id"])
